@@ -89,6 +89,8 @@ class Runtime:
         self.offered, self.accepted = [], []
         self.reg = None  # the harness's own record of the registered destinations (None = nothing added yet), from the API calls it made
         self.offered_reg = []  # parallel to `offered`: `reg` at the moment of the call
+        self.add_windows = []
+        self.typed_calls = []
         self.with_exits = []  # (uuid tag, level) of every action left through `with action:`
         self.reserved = []  # every id returned by serialize_task_id
         self.failures = []  # (dest, call index, exc id, was the message a report?)
@@ -294,7 +296,7 @@ def run_case(case):
     dst.__init__()
     saved_reg = dict(_errors._error_extraction.registry)
     _errors._error_extraction.registry.clear()
-    saved_time, saved_uuid = _action.time, _action.uuid4
+    saved_time, saved_uuid = _action.time, getattr(_action, "uuid4", None)  # (a source that no longer uses uuid4 shows up as a broken tie)
     _action.time = Clock()
     uu = itertools.count()
     _action.uuid4 = lambda: "uuid-%d" % next(uu)
@@ -343,7 +345,11 @@ def run_case(case):
         dst._destinations, dst._any_added, dst._globalFields = saved_dst
         _errors._error_extraction.registry.clear()
         _errors._error_extraction.registry.update(saved_reg)
-        _action.time, _action.uuid4 = saved_time, saved_uuid
+        _action.time = saved_time
+        if saved_uuid is not None:
+            _action.uuid4 = saved_uuid
+        else:
+            del _action.uuid4
         _output.Logger.write = orig_write
     buf = 0
     result.update(offered=rt.offered, accepted=rt.accepted, probes=rt.probes, probeTypes=rt.probe_types)
@@ -456,10 +462,13 @@ def _log_with(rt, target, ms):
     variant = len(rt.api) % 3
     if ms.get("sers") is not None:
         mt = eliot.MessageType(ms["mtype"], [rt.field(k, sid) for k, sid in ms["sers"]])
+        rt.typed_calls.append(len(rt.writes))  # the next Logger.write is this typed message's
         if target is None:
             if variant == 1:
                 return api(rt, "MessageType()().write", lambda: mt(**kw).write())
             return api(rt, "MessageType.log", mt.log, **kw)
+        if variant != 0:
+            return api(rt, "MessageType()().write(action=)", lambda: mt(**kw).write(action=target))
         kw["__eliot_serializer__"] = mt._serializer
         return api(rt, "Action.log(typed)", target.log, ms["mtype"], **kw)
     if target is None:
@@ -592,8 +601,10 @@ def exec_stmt(rt, s):
         a = api(rt, "continue_task", eliot.Action.continue_task, task_id=tid, action_type=spec["atype"], **rt.kwargs(spec["fields"]))
         with_block(rt, a, s["body"])
     elif op == "addDests":
+        n0 = len(rt.accepted)
         rt.reg = list(s["ds"]) if rt.reg is None else rt.reg + list(s["ds"])  # the first call delivers the backlog to exactly these
         api(rt, "add_destinations", eliot.add_destinations, *[rt.dest(d) for d in s["ds"]])
+        rt.add_windows.append((n0, len(rt.accepted), list(s["ds"])))  # what this call itself delivered (the start-up backlog)
     elif op == "removeDest":
         from eliot import _output
         if rt.dest(s["d"]) not in _output.Logger._destinations._destinations:
